@@ -81,7 +81,12 @@ func (s *Schema) computeLen() (length uint, err error) {
 		err = panics.Handle(recover(), err)
 	}()
 
-	return scanner.New(s.file, scanner.ComputeLength).Length(), err
+	length = scanner.New(s.file, scanner.ComputeLength).Length()
+	if length == 0 {
+		// Nothing but blanks and user comments: the text doesn't begin with a schema.
+		return 0, errors.NewDocumentError(s.file, errors.ErrEmptySchema)
+	}
+	return length, err
 }
 
 func (s *Schema) Example() (b []byte, err error) {
